@@ -237,6 +237,15 @@ fn run_schedules(rep: &Report, tier: Tier) {
             let solo = solo_runs(&cfg, variant);
             scen.push(super::c06::explore_batch(rep, "isolation", &cfg, variant, discipline, false, max_bound, slice, &|o| batch_isolation_with(o, &solo)));
         }
+        // the same pipelined run with every synchronisation operation a decision point (one deviation quick)
+        {
+            let mut cfg = TrkCfg::new(kind);
+            cfg.shards = 1;
+            cfg.voting_shards = 2;
+            cfg.max_idle = 2;
+            let solo = solo_runs(&cfg, 1);
+            scen.push(super::c06::explore_batch(rep, "isolation", &cfg, 1, 1, true, tier.pick(1, 2), slice, &|o| batch_isolation_with(o, &solo)));
+        }
     }
     rep.extra("schedule_part", json!(scen));
 }
